@@ -1,19 +1,35 @@
 /- GENERATED: instance obligations for one logic, discharged by kernel evaluation.
-   `X ⊆ known`: every failing row is a committed known finding (Ptx/Gen/Known.lean). -/
+   `S` = the logic with its DOCUMENTED tables (Ptx/Sem/Spec.lean); rules, closure, trunk and frames
+   are what the translator read off the code.  `X ⊆ known`: every failing row is a committed
+   known finding (Ptx/Gen/Known.lean, generated from known_findings.json). -/
 import Ptx.Gen.L_KLP
 import Ptx.Gen.Known
 import Ptx.Sem.Subset
+import Ptx.Props.C01
+import Ptx.Gen.L_LP
 namespace Ptx.Gen.Obl.KLP
 open Ptx
 
-theorem tables_total : Gen.KLP.tablesTotalB = true := by decide +kernel
-theorem rules_exact : subsetB Gen.KLP.badRules (Known.badRules "KLP") = true := by decide +kernel
-theorem rules_sound : subsetB Gen.KLP.unsoundRules (Known.unsoundRules "KLP") = true := by decide +kernel
-theorem rules_total : subsetB Gen.KLP.missingRules (Known.missingRules "KLP") = true := by decide +kernel
-theorem rules_local : Gen.KLP.nonLocalRules = [] := by decide +kernel
-theorem closure_total : Gen.KLP.closureTotalB = true := by decide +kernel
-theorem closure_exact : subsetB Gen.KLP.badClosure (Known.badClosure "KLP") = true := by decide +kernel
-theorem read_total : Gen.KLP.readTotalB = true := by decide +kernel
-theorem read_exact : subsetB Gen.KLP.badRead (Known.badRead "KLP") = true := by decide +kernel
+/-- a modal / first-order extension has exactly the truth-functional tables of its base (LP) -/
+theorem base_tables : Gen.KLP.tables.sameTF Gen.LP.tables = true := by decide +kernel
+theorem spec_defined : Gen.KLP.specDefinedB = true := by decide +kernel
+theorem tables_spec : subsetB Gen.KLP.tableDiff (Known.tableDiff "KLP") = true := by decide +kernel
+theorem defined_ops : Gen.KLP.tables.definedOpsBad = [] := by decide +kernel
+theorem tables_total : Gen.KLP.sem.tablesTotalB = true := by decide +kernel
+theorem rules_exact : subsetB Gen.KLP.sem.badRules (Known.badRules "KLP") = true := by decide +kernel
+theorem rules_sound : subsetB Gen.KLP.sem.unsoundRules (Known.unsoundRules "KLP") = true := by decide +kernel
+theorem rules_total : subsetB Gen.KLP.sem.missingRules (Known.missingRules "KLP") = true := by decide +kernel
+theorem rules_local : Gen.KLP.sem.nonLocalRules = [] := by decide +kernel
+theorem closure_total : Gen.KLP.sem.closureTotalB = true := by decide +kernel
+theorem closure_exact : subsetB Gen.KLP.sem.badClosure (Known.badClosure "KLP") = true := by decide +kernel
+theorem read_total : Gen.KLP.sem.readTotalB = true := by decide +kernel
+theorem read_exact : subsetB Gen.KLP.sem.badRead (Known.badRead "KLP") = true := by decide +kernel
+theorem sound_core : Gen.KLP.sem.soundCoreB = true := by decide +kernel
+
+/-- C01 for this logic: a closed tableau reached by any legal derivation has no countermodel. -/
+theorem c01_valid_sound (arg : Argument) (t : Tableau)
+    (hd : Deriv Gen.KLP.sem.soundPart.noQuantPart (trunk Gen.KLP.sem arg) t) (hclosed : t.allClosed = true)
+    (M : Struct) (hM : M.Interp Gen.KLP.sem) (e : Env M.D) (w0 : M.W) : ¬ Countermodel Gen.KLP.sem M e w0 arg :=
+  Props.C01.C01_valid_sound_partial Gen.KLP.sem sound_core arg t hd hclosed M hM e w0
 
 end Ptx.Gen.Obl.KLP
